@@ -193,8 +193,8 @@ def eval_cli(case):
             p = subprocess.run(argv, input=stdin, capture_output=True, env=env, cwd=d, timeout=60)
             out = p.stdout.decode('utf-8', 'replace')
             err = p.stderr.decode('utf-8', 'replace')
-            new = re.findall(r'^New .* connection (\w+)$', out, re.M)
-            closed = re.findall(r'^Closed .* connection (\w+)$', out, re.M)
+            new = re.findall(r'^New .*? connection (\w+)(?=$|[^\w])', out, re.M)
+            closed = re.findall(r'^Closed .*? connection (\w+)(?=$|[^\w])', out, re.M)
             if p.returncode != want_rc or 'Traceback' in err or sorted(new) != sorted(closed):
                 V.append(Violation('cli.aborted', case, {'returncode': p.returncode, 'want': want_rc, 'stderr': err[-500:],
                                                          'new': new, 'closed': closed}))
